@@ -64,6 +64,12 @@ func init() {
 			line := func(a, u, p, k string, port int, hb, ct, st, rt int64, ck string, rb int) string {
 				return fmt.Sprintf("CFG %s %s %s %s %d %d %d %d %d %s %d", a, u, p, k, port, hb, ct, st, rt, ck, rb)
 			}
+			// the receive buffer a client really uses, after another client with another setting ran in the same process
+			for _, a := range []int{1, 4, 64, 0} {
+				for _, b := range []int{0, 1, 2, 4, 3000} {
+					emit(fmt.Sprintf("CFGREAD %d %d", a, b))
+				}
+			}
 			// every subset of the required fields x every checksum kind
 			for m := 0; m < 16; m++ {
 				for _, ck := range cks {
@@ -117,6 +123,27 @@ func init() {
 			}
 		},
 		run: func(c string) string {
+			if strings.HasPrefix(c, "CFGREAD ") {
+				// two clients in a row, each with its own scripted connection and one exchange: the second one must read with the
+				// buffer ITS configuration means, whatever the first one used
+				f := strings.Fields(c)
+				var out string
+				for k := 1; k <= 2; k++ {
+					rb, _ := strconv.Atoi(f[k])
+					cl, err := rscp.NewClient(rscp.ClientConfig{Address: "127.0.0.1", Username: "u", Password: "p", Key: "k3y", ReceiveBufferBlockSize: uint16(rb),
+						ReceiveTimeout: time.Second, SendTimeout: time.Second})
+					if err != nil {
+						return "ERR"
+					}
+					pc := newPeerConn("k3y")
+					tr := &trace{}
+					sc := &scriptConn{j: 0, t: tr, budget: -1, script: []reaction{answer(pc.reply(authReply(10), true)), answer(pc.reply(sizedReply(9, true, 1), true))}}
+					attachConn(cl, sc)
+					_, err = cl.SendMultiple([]rscp.Message{{Tag: rscp.INFO_REQ_SERIAL_NUMBER, DataType: rscp.None}})
+					out = fmt.Sprintf("read=%d blocks=%d ok=%s", sc.maxBuf, effectiveConfig(cl).ReceiveBufferBlockSize, b01(err == nil))
+				}
+				return out
+			}
 			cfg := parseCfg(c)
 			cl, err := rscp.NewClient(cfg)
 			if err != nil {
@@ -148,6 +175,15 @@ func init() {
 		pred: func(c, res string) string {
 			if strings.HasPrefix(res, "PANIC") || res == "HANG" {
 				return "creating a client: " + shorten(res, 200)
+			}
+			if strings.HasPrefix(c, "CFGREAD ") {
+				kv := _kv(res)
+				n, _ := strconv.Atoi(kv["read"])
+				b, _ := strconv.Atoi(kv["blocks"])
+				if res == "ERR" || kv["ok"] != "1" || n != 32*b {
+					return fmt.Sprintf("a client whose receive buffer setting means %d block(s) reads with a buffer of %d bytes (after another client with another setting was used): %s", b, n, res)
+				}
+				return ""
 			}
 			f := strings.Fields(c)
 			complete := f[1] != "-" && f[2] != "-" && f[3] != "-" && f[4] != "-"
@@ -198,6 +234,9 @@ func init() {
 			return ""
 		},
 		class: func(c, res string) string {
+			if strings.HasPrefix(c, "CFGREAD ") {
+				return "buffer-in-use"
+			}
 			if strings.HasPrefix(res, "OK") {
 				return "accepted"
 			}
@@ -205,6 +244,9 @@ func init() {
 		},
 		nontrivial: func(c, res string) bool {
 			f := strings.Fields(c)
+			if f[0] == "CFGREAD" {
+				return true
+			}
 			return f[1] != "-" && f[2] != "-" && f[3] != "-" && f[4] != "-"
 		},
 	}
